@@ -389,6 +389,9 @@ impl Sim {
         self.nops += 1;
         let kind = op.kind();
         let mut newly: Vec<(usize, u64, bool)> = vec![]; // (epoch, pn, was declared lost before)
+        // RTT sample this ACK must produce (RFC 9002 5.1): its largest acknowledged packet is newly acknowledged
+        // (and was still outstanding for the controller) and ack-eliciting
+        let mut rtt_sample: Option<Duration> = None;
         let mut ce_up: Option<usize> = None;
         let mut tick_err = false;
         let mut quota: Option<Option<usize>> = None;
@@ -428,6 +431,12 @@ impl Sim {
                 let frame = ack_frame(ranges, *delay, *ecn);
                 let la = self.largest_acked[*e].map_or(ranges[0].1, |l| l.max(ranges[0].1));
                 self.largest_acked[*e] = Some(la);
+                if let Some(p) = self.led[*e].get(&ranges[0].1)
+                    && p.st == St::Out
+                    && p.ae
+                {
+                    rtt_sample = Some(Instant::now().saturating_duration_since(p.t));
+                }
                 for &(lo, hi) in ranges {
                     let pns: Vec<(u64, St)> = self.led[*e].range(lo..=hi).map(|(pn, p)| (*pn, p.st)).collect();
                     for (pn, st) in pns {
@@ -648,6 +657,30 @@ impl Sim {
         }
 
         // ---------------- loss_delay itself (time threshold factor) ------------------------------
+        // RFC 9002 6.1.2: 9/8 * max(smoothed_rtt, latest_rtt).  latest_rtt is not part of the snapshot: the oracle
+        // takes it from its own ledger, on the operation in which the controller visibly took the sample
+        // (its smoothed_rtt / rttvar moved), so that the estimate and the sample belong together.
+        if let Some(sample) = rtt_sample
+            && (post.smoothed_rtt != pre.smoothed_rtt || post.rttvar != pre.rttvar)
+        {
+            self.stat("time_threshold_checked_against_latest_rtt");
+            if sample > post.smoothed_rtt {
+                self.stat("time_threshold_checked_with_latest_above_smoothed");
+            }
+            let want = std::cmp::max(std::cmp::max(post.smoothed_rtt, sample).mul_f64(1.125 * (1.0 - 1e-5)), MS);
+            if post.loss_delay < want {
+                self.fail(
+                    "C13.loss.threshold:time-factor-ignores-latest-rtt".into(),
+                    format!(
+                        "after an RTT sample of {} us (smoothed_rtt now {} us) the controller's time threshold is {} us, below 9/8 * max(smoothed_rtt, latest_rtt) = {} us",
+                        dur_us(sample),
+                        dur_us(post.smoothed_rtt),
+                        dur_us(post.loss_delay),
+                        dur_us(want)
+                    ),
+                );
+            }
+        }
         {
             let want = std::cmp::max(post.smoothed_rtt.mul_f64(1.125 * (1.0 - 1e-5)), MS);
             if post.loss_delay < want {
